@@ -230,6 +230,27 @@ class C06(core.Check):
                 else:
                     modws = struct(strip_docstrings(ftree)) == struct(strip_docstrings(ast.parse(ast.unparse(tree))))
                     out.append(site(modws, dict(f, sub="modulo_docstring_whitespace"), fail="file_tree_differs"))
+            # two emissions into one file (append mode), every skip_black combination: the file must still parse and
+            # hold both definitions
+            second = ast.parse("def appended_after(x=1):\n    return x\n").body[0]
+            for sb1 in (True, False):
+                for sb2 in (True, False):
+                    fn = os.path.join(d, "two_%s_%s.py" % (sb1, sb2))
+                    f = dict(cf, field="file.append", first_black=not sb1, second_black=not sb2)
+                    try:
+                        import copy
+
+                        emit.file(copy.deepcopy(node), fn, mode="wt", skip_black=sb1)
+                        emit.file(copy.deepcopy(second), fn, mode="a", skip_black=sb2)
+                        with open(fn) as fh:
+                            t2 = ast.parse(fh.read())
+                        names = [getattr(n, "name", None) for n in t2.body]
+                        ok = len(t2.body) == 2 and names[1] == "appended_after" and struct(strip_docstrings(t2.body[0])) == struct(strip_docstrings(ast.parse(ast.unparse(tree)).body[0]))
+                        out.append(site(ok, f, fail="appended_file_wrong", names=names))
+                    except SyntaxError:
+                        out.append(site(False, f, fail="appended_file_does_not_parse"))
+                    except Exception as e:
+                        out.append(site(False, f, fail="file_raise", exc=type(e).__name__, msg=core.short(str(e), 80)))
         finally:
             shutil.rmtree(d, ignore_errors=True)
         return out
